@@ -86,6 +86,23 @@ def run_check(prop, tier, base_seed, runs_override=None, workers=None):
         else:
             raise core.HarnessError(f'known finding without replay file: {k}')
 
+    # 1b. regression histories of repaired defects: suppress nothing, must simply pass
+    fixed_dir = os.path.join(core.VERIF_DIR, 'findings', 'fixed')
+    regress = 0
+    if os.path.isdir(fixed_dir):
+        for fn in sorted(os.listdir(fixed_dir)):
+            if not fn.endswith('.json'):
+                continue
+            path = os.path.join(fixed_dir, fn)
+            tr = core.read_json(path)
+            if tr.get('property') != prop:
+                continue
+            regress += 1
+            res = replay_file(path, prop, quiet=True)
+            if res['violation'] is not None:
+                out_lines.append(f'VIOLATION property={prop} replay={path}')
+                out_lines.append(f"  (regression of a repaired defect) {res['violation']['sig']}: {res['violation']['detail']}")
+
     # 2. seeded search
     n = runs_override or m.TIER_RUNS[tier].get(prop, m.TIER_RUNS[tier]['default'])
     workers = workers or min(16, os.cpu_count() or 1)
@@ -138,6 +155,7 @@ def run_check(prop, tier, base_seed, runs_override=None, workers=None):
     wall = core.now_wall() - t0
     cov = m.coverage(prop, agg, tier, wall, workers)
     cov['known_findings_hit'] = known_hit
+    cov['regression_histories_replayed'] = regress
     cov['components'] = COMPONENTS
     cov['quarantine'] = quarantine
     core.write_evidence(prop, tier, base_seed, cov, wall, violations, m.ASSUMPTIONS.get(prop, m.ASSUMPTIONS['default']))
